@@ -1,5 +1,9 @@
 -- Root of the `EdbVerif` library: models, lemmas and property theorems.
 import EdbVerif.Props.C04
+import EdbVerif.Props.C05
+import EdbVerif.Props.C06
+import EdbVerif.Props.C09
+import EdbVerif.Props.C17
 import EdbVerif.Props.C18
 import EdbVerif.Props.C19
 import EdbVerif.Props.C20
